@@ -99,7 +99,7 @@ def check(case):
     if res.status != SolverStatus.Optimal:
         return trivial("not_optimal", labels)
     vw, cw, ow = S.weights_of(solver, spec)
-    bad = SC.kkt_violations(spec, res.x, res.y, res.d, vw, cw, ow)
+    bad = SC.kkt_violations(spec, res.x, res.y, res.d, vw, cw, ow, tau=solver.params.opt_tol, alpha=solver.params.active_tol)
     if bad:
         clause = bad[0][0]
         sc = (case.get("scaling") or {}).get("kind", "none")
